@@ -359,6 +359,15 @@ type TB interface {
 // Run executes check on c, converting panics to violations; a violation that is not a listed
 // known finding is saved as a replay file and fails the test.
 func Run[C any](t TB, r *Recorder, c C, check func(C) error) {
+	if msg := Try(r, c, check); msg != "" {
+		t.Fatalf("%s", msg)
+	}
+}
+
+// Try is Run without the failing: it returns the failure message ("" when the case passes). Tests over very large
+// generated cases use it and fail their outer *testing.T after rapid.Check has returned - rapid's minimisation of a
+// case recorded in millions of draws does not finish in useful time, and the saved case is the reproducible unit anyway.
+func Try[C any](r *Recorder, c C, check func(C) error) string {
 	if ec, ok := any(c).(interface{ GetEnv() Env }); ok {
 		e := ec.GetEnv()
 		e.Apply()
@@ -368,18 +377,18 @@ func Run[C any](t TB, r *Recorder, c C, check func(C) error) {
 	}
 	err := Safe(func() error { return check(c) })
 	if err == nil {
-		return
+		return ""
 	}
 	if v, ok := err.(*Violation); ok && IsKnown(r.Property, v.Sig) {
 		r.mu.Lock()
 		r.Known[v.Sig]++
 		r.mu.Unlock()
-		return
+		return ""
 	}
 	path := SaveFound(r.Property, r.Test, c, err)
 	msg := err.Error()
 	if len(msg) > 4000 {
 		msg = msg[:4000] + "…"
 	}
-	t.Fatalf("VERIF-FAIL property=%s test=%s replay=%s\n%s", r.Property, r.Test, path, msg)
+	return fmt.Sprintf("VERIF-FAIL property=%s test=%s replay=%s\n%s", r.Property, r.Test, path, msg)
 }
